@@ -355,18 +355,28 @@ Effect(i, a, rto, postDisk) ==
     [] OTHER -> same
 
 ----------------------------------------------------------------------------
+\* Bound["Atomic"] = 1: a node's Ready handling (Ready .. Advance) is not interleaved with anything else.
+\* Without crashes this loses no behaviour that matters (messages leave at Send either way) and removes the
+\* product of the sub-step interleavings of different nodes; every sub-step is still a state of its own, so
+\* every formula is still evaluated on it.
+Busy == {j \in Node : app[j].phase # "idle"}
+Quiet == Bound["Atomic"] = 0 \/ Busy = {}
+Mine(i) == Bound["Atomic"] = 0 \/ Busy \subseteq {i}
+
 Next ==
-  \/ \E i \in Node : TickA(i) \/ CampaignA(i) \/ ReadIndexA(i) \/ ForgetLeaderA(i) \/ BootA(i)
-  \/ \E i \in Node, psz \in PszSet : ProposeA(i, psz)
-  \/ \E i \in Node, cc \in CCSet : ProposeConfChangeA(i, cc)
-  \/ \E i, j \in Node : TransferLeaderA(i, j) \/ ReportUnreachableA(i, j)
-  \/ \E i, j \in Node, ok \in BOOLEAN : ReportSnapshotA(i, j, ok)
-  \/ \E m \in DOMAIN net : DeliverA(m, FALSE) \/ DeliverA(m, TRUE) \/ DropA(m)
-  \/ \E i \in Node : ReadyA(i) \/ PersistEntriesA(i) \/ PersistHardStateA(i) \/ PersistSnapshotA(i)
-                     \/ SendA(i) \/ ApplyA(i) \/ AdvanceA(i) \/ AppendThreadA(i, FALSE) \/ AppendThreadA(i, TRUE)
-                     \/ LocalRespA(i) \/ ApplyThreadA(i) \/ CrashA(i)
-  \/ \E i \in Node, st \in {0, 1} : CrashInAppendA(i, st)
-  \/ \E i \in Node, k \in 1..Bound["Index"] : SnapshotA(i, k) \/ CompactA(i, k) \/ RestartA(i, k)
+  \/ /\ Quiet
+     /\ \/ \E i \in Node : TickA(i) \/ CampaignA(i) \/ ReadIndexA(i) \/ ForgetLeaderA(i) \/ BootA(i)
+        \/ \E i \in Node, psz \in PszSet : ProposeA(i, psz)
+        \/ \E i \in Node, cc \in CCSet : ProposeConfChangeA(i, cc)
+        \/ \E i, j \in Node : TransferLeaderA(i, j) \/ ReportUnreachableA(i, j)
+        \/ \E i, j \in Node, ok \in BOOLEAN : ReportSnapshotA(i, j, ok)
+        \/ \E m \in DOMAIN net : DeliverA(m, FALSE) \/ DeliverA(m, TRUE) \/ DropA(m)
+        \/ \E i \in Node : AppendThreadA(i, FALSE) \/ AppendThreadA(i, TRUE) \/ LocalRespA(i) \/ ApplyThreadA(i) \/ CrashA(i)
+        \/ \E i \in Node, st \in {0, 1} : CrashInAppendA(i, st)
+        \/ \E i \in Node, k \in 1..Bound["Index"] : SnapshotA(i, k) \/ CompactA(i, k) \/ RestartA(i, k)
+  \/ \E i \in Node : /\ Mine(i)
+                      /\ (ReadyA(i) \/ PersistEntriesA(i) \/ PersistHardStateA(i) \/ PersistSnapshotA(i)
+                          \/ SendA(i) \/ ApplyA(i) \/ AdvanceA(i))
 
 Spec == Init /\ [][Next]_vars
 
@@ -377,6 +387,9 @@ StateBound ==
   /\ Cardinality(DOMAIN net) <= Bound["Net"]
 
 \* output-only variables are not part of a state's identity
+\* (of the action counters only the budgeted ones matter: how many deliveries or Ready steps led to a
+\* state does not distinguish it)
+BudgetedCnt == [k \in DOMAIN hist.cnt \cap DOMAIN Bound |-> hist.cnt[k]]
 View == <<node, disk, app, net,
-          [hist EXCEPT !.dlPrev = 0, !.hsExpPrev = 0, !.heard = 0, !.leadAge = 0]>>
+          [hist EXCEPT !.dlPrev = 0, !.hsExpPrev = 0, !.heard = 0, !.leadAge = 0, !.cnt = BudgetedCnt]>>
 =============================================================================
